@@ -180,6 +180,9 @@ InvXtal == Mode = "xtal" =>
   /\ Brackets(AExact(XH, <<1, 1, 1>>, XFrame, l, 1, 1, 30), IF l = 4 THEN RefTable(XName).q4 ELSE RefTable(XName).q6)
 \* small configurations
 CfgOK(fr) == ~FrameHasTie(HOf, PppOf, fr, NmaxC) /\ ~FrameHasZeroBond(HOf, PppOf, fr, NmaxC)
+\* exact rational evaluation stays inside 32 bits when every bond has components in {-1, 0, 1} (norms 1, 2, 3)
+SmallBonds(fr) == LET B == BondsOf(HOf, PppOf, fr, NmaxC) IN
+                  \A i \in 1..Len(fr.pos) : \A k \in 1..Len(B[i]) : Norm2(B[i][k]) <= 3
 ExactHere == Mode = "cfg" /\ Scope = "exact" /\ l % 2 = 0
 InvNoTies     == Mode = "cfg" => \A f \in 1..a.nf : ~FrameHasTie(HOf, PppOf, Frames[f], NmaxC) /\ BondIsCellMinImage(HOf, PppOf, Frames[f], NmaxC)
 InvWeights    == Mode = "cfg" => \A f \in 1..a.nf :
@@ -188,7 +191,7 @@ InvEqualWeightsTerms == (Mode = "cfg" /\ a.wi = 2) =>      \* the emitted defini
   \A f \in 1..a.nf : ~FrameHasZeroBond(HOf, PppOf, Frames[f], NmaxC) =>
     FrameDefs(HOf, PppOf, Frames[f], f, l, NmaxC, FALSE)
       = FrameDefs(HOf, PppOf, [Frames[f] EXCEPT !.w = << >>], f, l, NmaxC, FALSE)
-InvExactBounds == ExactHere => \A f \in 1..a.nf : CfgOK(Frames[f]) =>
+InvExactBounds == ExactHere => \A f \in 1..a.nf : (CfgOK(Frames[f]) /\ SmallBonds(Frames[f])) =>
   LET N  == Len(Frames[f].pos)
       M  == AMatrix(HOf, PppOf, Frames[f], l, NmaxC)
       MQ == AQMatrix(M, Frames[f], NmaxC)
@@ -206,7 +209,7 @@ RECURSIVE ConcatFrames(_, _)
 ConcatFrames(F(_), n) == IF n = 0 THEN << >> ELSE ConcatFrames(F, n - 1) \o F(n)
 
 ExactOf(fr) ==
-  IF ~(ExactHere /\ CfgOK(fr)) THEN [have |-> FALSE]
+  IF ~(ExactHere /\ CfgOK(fr) /\ SmallBonds(fr)) THEN [have |-> FALSE]
   ELSE LET N  == Len(fr.pos)
            M  == AMatrix(HOf, PppOf, fr, l, NmaxC)
            MQ == AQMatrix(M, fr, NmaxC)
